@@ -43,6 +43,7 @@ func appendEvent(m map[string]any) {
 
 func handlerFor(name string) func() {
 	return func() {
+		appendEvent(map[string]any{"e": "started", "name": name, "pid": os.Getpid(), "ppid": os.Getppid()})
 		if ms, _ := strconv.Atoi(os.Getenv("VERIF_DAEMON_DELAY_MS")); ms > 0 {
 			time.Sleep(time.Duration(ms) * time.Millisecond)
 		}
